@@ -4,11 +4,15 @@ package main
 //
 // C08 design: the package-level default tables are process state and OptimizeTable writes through the
 // slices GetCodonTable hands out (known finding C08-alias-default).  So that every history is independent
-// of the ones run before it in the same process (and replays alone exactly as it ran in a batch), a
-// history starts by (1) putting the default tables it names back to weight 1 THROUGH the same aliasing
-// (the only access there is without a hook), and (2) REPORTING those tables; the Lean side starts its
-// heap model from the reported state (so it also learns the amino-acid order, which is the iteration
-// order of a Go map and differs from process to process) and checks that it is pristine.
+// of the ones run before it in the same process (and replays alone exactly as it ran in a batch):
+//   * the FIRST time an id is named by a C08 op in this process, the table GetCodonTable(id) returns is
+//     SNAPSHOTTED before anything re-weights it: that is the fresh-process state of the default table,
+//     written by poly alone.  It is reported with the prefix "F" (fresh).
+//   * every later history that names the id first puts the weights of the snapshot back THROUGH the same
+//     aliasing (the only access there is without a hook) and reports the table with the prefix "R".
+// The harness never writes a weight of its own choosing.  The Lean side judges every reported start table
+// (uniform weight 1, regenerated NCBI assignment), starts its heap model from it (so it also learns the
+// amino-acid order, which is the iteration order of a Go map and differs from process to process).
 
 import (
 	"errors"
@@ -23,13 +27,36 @@ import (
 	"github.com/TimothyStiles/poly/transform/codon"
 )
 
-func resetDefault(id int) {
+var (
+	snapMu    sync.Mutex
+	snapshots = map[int][][]int{} // id -> weights of GetCodonTable(id) at its first use by a C08 op in this process
+)
+
+// startTable snapshots (first use) or restores (later uses) default table id and reports it: "F"/"R" + table text.
+func startTable(id int) string {
+	snapMu.Lock()
+	defer snapMu.Unlock()
 	t := codon.GetCodonTable(id)
+	snap, seen := snapshots[id]
+	if !seen {
+		for i := range t.AminoAcids {
+			var ws []int
+			for j := range t.AminoAcids[i].Codons {
+				ws = append(ws, t.AminoAcids[i].Codons[j].Weight)
+			}
+			snap = append(snap, ws)
+		}
+		snapshots[id] = snap
+		return "F" + tableText(t)
+	}
 	for i := range t.AminoAcids {
 		for j := range t.AminoAcids[i].Codons {
-			t.AminoAcids[i].Codons[j].Weight = 1
+			if i < len(snap) && j < len(snap[i]) {
+				t.AminoAcids[i].Codons[j].Weight = snap[i][j]
+			}
 		}
 	}
+	return "R" + tableText(codon.GetCodonTable(id))
 }
 
 func parseIDs(s string) ([]int, error) {
@@ -190,10 +217,7 @@ func init() {
 		}
 		var out []string
 		for _, id := range ids {
-			resetDefault(id)
-		}
-		for _, id := range ids {
-			out = append(out, tableText(codon.GetCodonTable(id)))
+			out = append(out, startTable(id))
 		}
 		var handles []codon.Table
 		for _, tok := range args[1:] {
@@ -207,12 +231,15 @@ func init() {
 		return out, nil
 	})
 
-	// c08conc <id:s1,s2,...>... : one goroutine per argument re-weights ITS default table with s1, s2, ... in turn.
-	// -> init table per thread, final table per thread, then GetCodonTable(id) per thread afterwards
+	// c08conc <id:s1,s2,...|id:@n>... : one goroutine per argument.  A WRITER (id:s1,s2,...) re-weights ITS default
+	// table with s1, s2, ... in turn; a READER (id:@n) requests default table id n times while the writers run, each
+	// time serialising it and adding it to itself, and reports the last text and whether all n looks were identical.
+	// -> start table per thread, final per thread, then GetCodonTable(id) per thread afterwards
 	runner.Register("c08conc", func(args []string) ([]string, error) {
 		type thread struct {
-			id   int
-			seqs []string
+			id    int
+			seqs  []string
+			reads int
 		}
 		var ths []thread
 		for _, a := range args {
@@ -224,14 +251,23 @@ func init() {
 			if err != nil {
 				return nil, err
 			}
-			ths = append(ths, thread{id, strings.Split(f[1], ",")})
+			if strings.HasPrefix(f[1], "@") {
+				n, err := strconv.Atoi(f[1][1:])
+				if err != nil {
+					return nil, err
+				}
+				ths = append(ths, thread{id: id, reads: n})
+			} else {
+				ths = append(ths, thread{id: id, seqs: strings.Split(f[1], ",")})
+			}
 		}
 		var out []string
+		seen := map[int]string{}
 		for _, th := range ths {
-			resetDefault(th.id)
-		}
-		for _, th := range ths {
-			out = append(out, tableText(codon.GetCodonTable(th.id)))
+			if _, ok := seen[th.id]; !ok {
+				seen[th.id] = startTable(th.id)
+			}
+			out = append(out, seen[th.id])
 		}
 		finals := make([]string, len(ths))
 		start := make(chan struct{})
@@ -246,6 +282,23 @@ func init() {
 					}
 				}()
 				<-start
+				if ths[k].seqs == nil {
+					same, last := true, ""
+					for i := 0; i < ths[k].reads; i++ {
+						t := codon.GetCodonTable(ths[k].id)
+						txt := tableText(t) + "|" + tableText(codon.AddCodonTable(t, t))
+						if i > 0 && txt != last {
+							same = false
+						}
+						last = txt
+					}
+					if !same {
+						finals[k] = "changed"
+						return
+					}
+					finals[k] = "T" + strings.SplitN(last, "|", 2)[0]
+					return
+				}
 				t := codon.GetCodonTable(ths[k].id)
 				for _, s := range ths[k].seqs {
 					t = t.OptimizeTable(s)
